@@ -89,6 +89,10 @@ func runWorldCase(t *rapid.T, s *worldSpec) {
 	defer w.Close()
 	w.rememberInitialCfg()
 	w.trackIndex(Op{Kind: "reopen"})
+	if p.NormalFormOneIn > 0 && rapid.IntRange(1, p.NormalFormOneIn).Draw(t, "normalForm") == 1 {
+		w.NormalForm = true
+		w.Labels["normal_form_case"] = true
+	}
 	steps := rapid.IntRange(p.MinSteps, p.MaxSteps).Draw(t, "steps")
 	cnt0 := refCnt
 	handle := func(v *Violation) bool {
